@@ -1,7 +1,7 @@
 CFG = {
     "lean_targets": ["Norad.Props.C13"],
     "audit": "Norad/Audit/C13.lean",
-    "extract": "fontinfo_rules",
+    "extract": ["fontinfo_rules", "fontinfo_deser"],
     "rule": ("per rule an exhaustive sweep across its boundary, each value sent through FontInfo::validate, Font::save and Font::save_with_options (default and custom options) "
              "(over an existing directory) and Font::load of a generated fontinfo.plist: the six PostScript lists at every "
              "length 0..17; all 256 subsets of selection bits 0..7; family class 0..16 x 0..17; every two-digit date field "
@@ -20,6 +20,7 @@ CFG = {
         "the projection: PostScript lists are represented by their length, WOFF records by their emptiness structure; the harness builds list elements and record texts itself",
         "tools/extract_fontinfo_rules.py (regex over FontInfo::validate and Os2FamilyClass::is_valid; per section it falls back to the pinned copy when a block contains a test it does not recognise): a wrong extraction can only make a source_* theorem fail or report `extraction: pinned`",
         "Norad/Model/FINum.lean: decoding of f64 bit patterns to exact magnitudes (comparison with 0 and 360)",
+        "tools/extract_fontinfo_deser.py (regex over the hand-written and derived Deserialize impls of fontinfo.rs, guideline.rs, shared_types.rs, identifier.rs; per section it falls back to the pinned copy when the region has a shape it does not know): a wrong extraction can only make a source_deser_* theorem fail or report `extraction: pinned`; what serde / serde_repr / plist do with a derive is assumed (integer outside the Rust type refused, unknown discriminant refused, deny_unknown_fields)",
     ],
     "assumptions": [
         "the checked tree carries the two fix: commits of branch fix/fontinfo (month/day lower bound; guideline angle checked in validate); on a tree without them the check reports the two violations",
@@ -28,7 +29,7 @@ CFG = {
 }
 
 MANIFEST = {
-    "text": ("The rule constants (list limits, pairs set, date length / separators / field ranges, selection bits, class bounds, angle range, WOFF emptiness tests) are re-extracted from src/fontinfo.rs on every run and tied to the model's literals and to an independent rule table by decide-theorems (source_*). Theorem validate_iff_rules: the transcription of FontInfo::validate (date slicing as partial byte-offset operations on characters "
+    "text": ("The typed deserialisers that enforce rules at load time (style-map names, WOFF direction, width class / character set / gasp behaviour discriminants, fixed-length family class and panose with their element types, bit lists, non-negative integers and numbers, name and gasp records, colour and identifier syntax, the guideline shape match and its angle range) are re-extracted from the Rust on every run; the acceptor those tables denote is proved equal to the model's typed layer for every file-level value (source_deser_rules_match_model: a load succeeds iff the regenerated acceptor accepts and the rules hold) and the tables equal an independent table of what the file format demands (source_deser_rules_match_spec). The rule constants (list limits, pairs set, date length / separators / field ranges, selection bits, class bounds, angle range, WOFF emptiness tests) are re-extracted from src/fontinfo.rs on every run and tied to the model's literals and to an independent rule table by decide-theorems (source_*). Theorem validate_iff_rules: the transcription of FontInfo::validate (date slicing as partial byte-offset operations on characters "
              "with UTF-8 sizes, gasp loop, identifier set loop, bit/class/list/WOFF checks, in source order) returns ok for ANY font info exactly "
              "when the independent per-rule specification holds; it never reaches a slicing panic; a loaded or saved info satisfies the rules; the "
              "three entry points agree on every value that can reach all three. The model is tied to the code by exhaustive per-rule boundary "
